@@ -136,7 +136,6 @@ def read_trace(m, path, fr, env, outcome, value, exc):
 def _(c):
     c.cases(*READ_CASES)
     c.setup(read_setup)
-    c.module_globals(SUPPORTED_FORMATS=("png", "jpg", "npy", "fits"))
     c.may_raise("IOError", "I/O errors other than 'no such file' propagate")
     c.may_raise("ValueError", "unknown default / missing masked_mode")
     c.on_path(read_trace)
